@@ -15,9 +15,13 @@ def run(ctx):
     # by columns only with diagonal entries of either sign and rows (columns) rescaled, where the diagonal is usually NOT the
     # largest candidate, so that the preference for the diagonal at threshold 0 is what keeps the pivots on it.
     for i, (P, dom) in enumerate([(1, 1), (2, 1), (4, 1), (1, "row"), (2, "row"), (4, "row"), (3, "col")]):
-        recs += S.sweep(ctx, 70 if q else 700, 40 if q else 120, precs="dszc" if dom != 1 else "ds", drivers=("gssvx",), flavour="asan",
+        recs += S.sweep(ctx, 70 if q else 700, 40 if q else 120, precs="dszc", drivers=("gssvx",), flavour="asan",
                         force={"symm": 1, "colperm": 2, "u": 0.0, "dominant": dom, "nprocs": P, "evlog": 1, "stype": "NC",
                                "kind": ["random", "band", "grid", "arrow", "forest", "tridiag", "blockdiag", "dense"]}, seed_offset=600 + i)
+        # storage-reservation shapes: relaxed supernodes made of several fundamental supernodes (leaves hanging off a clique), every relaxation size
+        recs += S.sweep(ctx, 40 if q else 300, 40 if q else 90, precs="dszc", drivers=("gssvx",), flavour="asan",
+                        force={"symm": 1, "colperm": 2, "u": 0.0, "dominant": dom, "nprocs": P, "evlog": 1, "stype": "NC", "relax": [2, 3, 4, 5, 6, 8],
+                               "maxsuper": 200, "kind": "arrowblocks"}, seed_offset=640 + i)
     S.judge(ctx, recs, ["wfL", "wfU", "permr", "permc", "lower", "upper", "lu", "diag", "resid"], "symmetric-mode")
     neq = 0
     for r in recs:
